@@ -85,14 +85,7 @@ impl EmmyLuaEmitter {
 
     /// Write `---| "value" # description`.
     pub fn write_alias_variant(&mut self, value: &str, description: Option<&str>) {
-        match description {
-            Some(desc) => {
-                let _ = writeln!(self.output, "---| \"{}\" # {}", value, desc);
-            }
-            None => {
-                let _ = writeln!(self.output, "---| \"{}\"", value);
-            }
-        }
+        self.write_alias_type_variant(&string_literal_type(value), description);
     }
 
     /// Write `---| type # description` (for non-string union members).
@@ -115,6 +108,24 @@ impl EmmyLuaEmitter {
     /// Consume and return the final output string.
     pub fn finish(self) -> String {
         self.output
+    }
+}
+
+/// Write `value` as a string literal type.
+///
+/// Strings in annotations have no escape sequences and end at the line end,
+/// so use the quote character that does not occur in the value. A value that
+/// contains both quotes or a line break cannot be written down; it degrades
+/// to the `string` type.
+pub fn string_literal_type(value: &str) -> String {
+    if value.contains(['\n', '\r']) {
+        "string".to_string()
+    } else if !value.contains('"') {
+        format!("\"{}\"", value)
+    } else if !value.contains('\'') {
+        format!("'{}'", value)
+    } else {
+        "string".to_string()
     }
 }
 
